@@ -5,13 +5,18 @@
    (C10_alloc_fresh_partial) returns a block-aligned, long-enough region all of whose blocks were free and flips
    exactly those bits 0->1 (C10_alloc_flips_only_own), hence never a block that was allocated - header, bitmap and
    live regions have their bits set (C10_alloc_avoids_allocated).
-   _partial: histories in which the bitmap does not grow/move (allocations carry IWFSM_ALLOC_NO_EXTEND, no clear, no
-   trim on close).  The missing part is the invariant across _fsm_init_lw (bitmap relocation: reload + release of the
-   old bitmap area); the model of that path is executable and is compared with the implementation on every run (T2). *)
-Require Import ZArith List Bool. Require Import IW.Lib.CInt IW.Gen.Facts IW.FS.Bits IW.FS.Bits_proofs IW.FS.Fsm IW.FS.Fsm_hdr_proofs IW.FS.Fsm_proofs.
+   Deepening round: nothing is _partial any more.  C10_every_history_good / C10_alloc_fresh cover EVERY history from a new
+   file - any flags, bitmap growth through both retry loops of _fsm_blk_allocate_lw, reallocate, clear, close with trim +
+   reopen; their one hypothesis is on the outcome (final bitmap below 2^28 bits: the 32-bit block keys; nothing in the
+   code stops the growth before they overflow).  The round-1 statements for histories without growth are kept
+   (..._noext / ..._without_growth: no size hypothesis at all), now over reachable states instead of [hdr_current].
+   Defects reported on the unchanged library are stated here as ..._refuted (model of the code as it is, replayed on the
+   library by corpus/C10/realloc-*.txt, alloc-*-overflow.txt) next to the theorem that holds after the patch. *)
+Require Import ZArith List Bool. Require Import IW.Lib.CInt IW.Gen.Facts IW.FS.Bits IW.FS.Bits_proofs IW.FS.Fsm IW.FS.Fsm_hdr_proofs IW.FS.Fsm_proofs IW.FS.Fsm_all_proofs.
 Import ListNotations. Local Open Scope Z_scope.
 
-Theorem C10_alloc_fresh_partial : forall s len addr opts ovr, Inv s -> WF s -> len < 2 ^ 62 ->
+(* allocation that may not extend the bitmap: any state with the invariant, no bound on the size of the bitmap *)
+Theorem C10_alloc_fresh_noext : forall s len addr opts ovr, Inv s -> WF s -> len < 2 ^ 62 ->
   has opts IWFSM_ALLOC_NO_EXTEND = true ->
   let '(rc, s', a, l) := allocate s len addr opts ovr in
   (rc <> 0 /\ (s' = s \/ exists off olen, allocated_from s s' off olen)) \/
@@ -19,7 +24,23 @@ Theorem C10_alloc_fresh_partial : forall s len addr opts ovr, Inv s -> WF s -> l
      len <= l /\ (has opts IWFSM_ALLOC_NO_OVERALLOCATE = true -> l = IW_ROUNDUP len (pow2 (bpow s))) /\
      (has opts IWFSM_ALLOC_PAGE_ALIGNED = true -> a mod aunit s = 0)).
 Proof. exact allocate_noext. Qed.
-Print Assumptions C10_alloc_fresh_partial.
+Print Assumptions C10_alloc_fresh_noext.
+
+(* EVERY flag combination, bitmap growth included.  [Full s]: index = maximal zero runs (Inv), geometry, the bitmap's own
+   area marked allocated, header current - the predicate of every reachable state (C10_every_history_good).  When the call
+   returns 0 the region was carved out of a free run of a state sg that differs from s by relocations of the bitmap only:
+   [Grown s sg] = every block in use in s (and not part of the old bitmap area) is in use in sg and outside the bitmap area
+   of sg.  So the region is disjoint from every live region, from the header and from the bitmap in use. *)
+Theorem C10_alloc_fresh : forall s len addr opts ovr, Full s -> len < 2 ^ 62 ->
+  let r := allocate s len addr opts ovr in
+  bmlen (state_of r) * 16 <= FSM_BKEY_MAX ->
+  Full (state_of r) /\
+  (rc_of r = 0 -> exists sg off olen, Full sg /\ Grown s sg /\ allocated_from sg (state_of r) off olen /\
+     addr_of r = off * 2 ^ bpow s /\ len_of r = olen * 2 ^ bpow s /\ len <= len_of r /\
+     (has opts IWFSM_ALLOC_NO_OVERALLOCATE = true -> len_of r = IW_ROUNDUP len (pow2 (bpow s))) /\
+     (has opts IWFSM_ALLOC_PAGE_ALIGNED = true -> addr_of r mod aunit s = 0)).
+Proof. exact allocate_full. Qed.
+Print Assumptions C10_alloc_fresh.
 
 Theorem C10_alloc_avoids_allocated : forall s s' off olen i, allocated_from s s' off olen ->
   getb (bm s) i = true -> ~ (off <= i < off + olen).
@@ -61,6 +82,15 @@ Theorem C10_release_exact : forall s addr len, Good s ->
   (s' = s \/ (rc = 0 /\ bm s' = set_range (bm s) (blk_of s addr) (blk_of s len) false)).
 Proof. exact deallocate_good. Qed.
 Print Assumptions C10_release_exact.
+
+(* reallocate of an owned range, any flags, bitmap growth included *)
+Theorem C10_reallocate_every_flag : forall s nlen addr olen opts ovr, Full s -> 0 <= nlen < 2 ^ 62 ->
+  live_range s (blk_of s addr) (blk_of s olen) ->
+  fx_realloc (vr s) = true \/ touches_meta s (blk_of s addr) (blk_of s olen) = false ->
+  let r := reallocate s nlen addr olen opts ovr in
+  bmlen (state_of r) * 16 <= FSM_BKEY_MAX -> Full (state_of r).
+Proof. exact reallocate_full. Qed.
+Print Assumptions C10_reallocate_every_flag.
 
 Theorem C10_reallocate_good : forall s nlen addr olen opts ovr, Good s -> has opts IWFSM_ALLOC_NO_EXTEND = true ->
   0 <= nlen < 2 ^ 62 -> live_range s (blk_of s addr) (blk_of s olen) ->
@@ -140,15 +170,104 @@ Theorem C10_short_release_refused_refuted : exists s addr len, blk_of s len < 1 
 Proof. exact short_release_refused_refuted. Qed.
 Print Assumptions C10_short_release_refused_refuted.
 
-(* [hdr_current s]: the file header names the bitmap area in use (true of every new or reopened file and kept by every
-   operation: C11_header_current_step); needed because these histories close and reopen the file *)
-Theorem C10_every_history_good_partial : forall ops s, Good s -> hdr_current s = true -> ok_run s ops -> Good (run s ops).
-Proof. exact run_good. Qed.
-Print Assumptions C10_every_history_good_partial.
+(* ---- reallocate and the allocator's own areas (reported on the unchanged library; fixes/fsm-realloc-guard.diff) *)
+Theorem C10_realloc_meta_refused : forall s nlen addr olen opts ovr, fx_realloc (vr s) = true ->
+  blk_of s olen < 1 \/ touches_meta s (blk_of s addr) (blk_of s olen) = true ->
+  let '(rc, s', a, l) := reallocate s nlen addr olen opts ovr in
+  s' = s /\ a = addr /\ l = olen /\ (rc = 0 -> shr (IW_ROUNDUP nlen (pow2 (bpow s))) (bpow s) = blk_of s olen).
+Proof. exact realloc_meta_refused. Qed.
+Print Assumptions C10_realloc_meta_refused.
+(* the code as it is: new file, reallocate(192, &a = 0, &l = 128) answers 0, the header blocks are free, and the next
+   allocate(64) returns address 0 - inside the file header *)
+Theorem C10_realloc_meta_refused_refuted : exists s nlen addr olen opts,
+  touches_meta s (blk_of s addr) (blk_of s olen) = true /\
+  (let '(rc, s1, a, l) := reallocate s nlen addr olen opts false in
+   rc = 0 /\ getb (bm s1) 0 = false /\
+   (let '(rc2, _, a2, l2) := allocate s1 64 0 0 false in rc2 = 0 /\ a2 = 0 /\ a2 < hdrlen s)).
+Proof. exact realloc_meta_refused_refuted. Qed.
+Print Assumptions C10_realloc_meta_refused_refuted.
+(* ... and in strict mode 63 of the 64 blocks of the live bitmap are released *)
+Theorem C10_realloc_bitmap_refuted : exists s, strict s = true /\ BmArea s /\
+  (let r := reallocate s 64 4096 4096 0 false in
+   rc_of r = 0 /\ bmoff (state_of r) = 4096 /\ bmlen (state_of r) = 4096 /\
+   getb (bm (state_of r)) 65 = false /\ getb (bm (state_of r)) 127 = false /\ ~ BmArea (state_of r)).
+Proof. exact realloc_bitmap_refuted. Qed.
+Print Assumptions C10_realloc_bitmap_refuted.
+Example C10_realloc_meta_fixed_on_new_file :
+  (let r := reallocate (fresh v_fixed false) 192 0 128 0 false in
+   rc_of r = IWFS_ERROR_FSM_SEGMENTATION /\ state_of r = fresh v_fixed false /\ (addr_of r, len_of r) = (0, 128)) /\
+  (let r := reallocate (fresh v_fixed true) 64 4096 4096 0 false in
+   rc_of r = IWFS_ERROR_FSM_SEGMENTATION /\ state_of r = fresh v_fixed true /\ (addr_of r, len_of r) = (4096, 4096)).
+Proof. exact realloc_meta_fixed_on_new_file. Qed.
 
-(* the hypotheses are satisfiable: a new 64-byte-block file, closed and reopened, and a history on it *)
+(* ---- the address hint is a hint (reported on the unchanged library; fixes/fsm-alloc-overflow.diff).  After the patch - or for
+   any hint below 2^32 blocks - a request that is not page aligned is served from the current bitmap whenever SOME free run is
+   long enough; _fsm_find_matching_fblock_lw is complete (C11_lookup_complete) *)
+Theorem C10_alloc_hint_harmless : forall s length_blk hint opts ovr, Inv s -> 0 < length_blk ->
+  fx_hint (vr s) = true \/ hint <= FSM_BKEY_MAX ->
+  has opts IWFSM_ALLOC_PAGE_ALIGNED = false ->
+  (exists o n, is_run (bm s) o n /\ length_blk <= n) ->
+  let '(rc, s', off, olen) := blk_allocate s length_blk hint opts ovr in
+  (rc = 0 \/ rc = IWFS_ERROR_NOT_MMAPED \/ rc = FSM_E_MAXOFF) /\ allocated_from s s' off olen /\ length_blk <= olen.
+Proof. exact alloc_hint_harmless. Qed.
+Print Assumptions C10_alloc_hint_harmless.
+(* the code as it is, new file, hint address 2^40: NO_FREE_SPACE under NO_EXTEND although 32640 blocks in a row are free ... *)
+Theorem C10_alloc_hint_refuted_noext : exists s hint,
+  (exists o n, is_run (bm s) o n /\ 1 <= n) /\ rc_of (allocate s 64 hint IWFSM_ALLOC_NO_EXTEND false) = IWFS_ERROR_NO_FREE_SPACE.
+Proof. exact alloc_hint_refuted_noext. Qed.
+Print Assumptions C10_alloc_hint_refuted_noext.
+(* ... and without the flag the bitmap doubles until the file cannot grow any more (here: size limit 64 KB), then the call fails *)
+Theorem C10_alloc_hint_refuted_growth : exists v hint, fx_hint v = false /\
+  let s := snd (open_new_max v 6 0 0 65536 false) in
+  let r := allocate s 64 hint 0 false in
+  (bmlen s, fsize s) = (4096, 8192) /\ rc_of r = FSM_E_MAXOFF /\ (bmlen (state_of r), fsize (state_of r)) = (32768, 65536).
+Proof. exact alloc_hint_refuted_growth. Qed.
+Print Assumptions C10_alloc_hint_refuted_growth.
+Example C10_alloc_hint_fixed :
+  let s := snd (open_new_max v_fixed 6 0 0 65536 false) in
+  (let r := allocate s 64 (2 ^ 40) IWFSM_ALLOC_NO_EXTEND false in (rc_of r, addr_of r, len_of r)) = (0, 128, 64) /\
+  (let r := allocate s 64 (-1) 0 false in (rc_of r, addr_of r, len_of r, bmlen (state_of r))) = (0, 128, 64, 4096) /\
+  (let r := allocate s (2 ^ 38) 0 0 false in (rc_of r, bmlen (state_of r), fsize (state_of r))) = (FSM_IW_ERROR_OVERFLOW, 4096, 8192).
+Proof. exact alloc_hint_fixed. Qed.
+
+(* ---- EVERY HISTORY from a new file (was C10_every_history_good_partial: allocations had to carry NO_EXTEND, no clear, no trim).
+   [client_all]: request anything; release / resize only owned ranges; clear as long as it succeeds; sync; close (trim or not) +
+   reopen.  [Full] implies Good, header current, index = maximal zero runs, bitmap area marked allocated (C10_full_facts). *)
+Theorem C10_every_history_good : forall v bp hl bl mx st ops, fx_lfbk v = true -> 0 <= bp -> bl <= 2 ^ 28 ->
+  fst (open_new_max v bp hl bl mx st) = 0 ->
+  ok_all (snd (open_new_max v bp hl bl mx st)) ops ->
+  bmlen (run (snd (open_new_max v bp hl bl mx st)) ops) * 16 <= FSM_BKEY_MAX ->
+  Full (run (snd (open_new_max v bp hl bl mx st)) ops).
+Proof. exact every_history_full. Qed.
+Print Assumptions C10_every_history_good.
+Theorem C10_every_history_good_from : forall ops s, Full s -> ok_all s ops -> bmlen (run s ops) * 16 <= FSM_BKEY_MAX -> Full (run s ops).
+Proof. exact run_full. Qed.
+Print Assumptions C10_every_history_good_from.
+Theorem C10_full_facts : forall s, Full s ->
+  Good s /\ hdr_current s = true /\ (forall o n, In (n, o) (tree s) <-> is_run (bm s) o n) /\
+  (forall i, in_area s i -> getb (bm s) i = true).
+Proof. exact full_facts. Qed.
+Print Assumptions C10_full_facts.
+(* the bitmap never shrinks along a history (header current, clears succeed): the bound on the outcome bounds every state *)
+Theorem C10_bitmap_only_grows : forall ops s, HS s -> clears_ok_run s ops -> bmlen s <= bmlen (run s ops).
+Proof. exact mono_run. Qed.
+Print Assumptions C10_bitmap_only_grows.
+
+(* histories without bitmap growth (the round-1 statement): no hypothesis on sizes; [reachable] replaces the hypothesis
+   [hdr_current s = true] of round 5 - the header is current in every reachable state (C11_header_current_reachable) *)
+Theorem C10_history_without_growth_good : forall ops s, reachable s -> Good s -> ok_run s ops -> Good (run s ops).
+Proof. exact run_good_reachable. Qed.
+Print Assumptions C10_history_without_growth_good.
+
+(* the hypotheses are satisfiable: a new 64-byte-block file, closed and reopened, and a history on it; and a history that grows
+   the bitmap, shrinks a region, releases, syncs, closes with trim, reopens strict, clears, and allocates page aligned *)
 Example C10_good_state_exists : Good (reopen (fresh v_fixed false) false false).
 Proof. exact fresh_reopened_good. Qed.
 Example C10_history_exists : ok_run (fresh v_fixed false) lfbk_witness /\
   (let '(rc, _, a, l) := allocate (fresh v_fixed false) 100 0 11 false in (rc, a, l)) = (0, 128, 128).
 Proof. split; [apply lfbk_witness_ok; right; reflexivity|vm_compute; reflexivity]. Qed.
+Example C10_full_history_exists : fst (open_new_max v_fixed 6 0 0 0 false) = 0 /\
+  ok_all (snd (open_new_max v_fixed 6 0 0 0 false)) full_witness_ops /\
+  (let s := run (snd (open_new_max v_fixed 6 0 0 0 false)) full_witness_ops in
+   (bmlen s, bmoff s) = (8192, 4096) /\ bmlen s * 16 <= FSM_BKEY_MAX).
+Proof. exact full_witness. Qed.
